@@ -263,7 +263,7 @@ def _w12(ctx):
     owners = set()
     for c in dele:
         owners |= ctx.terminal_owners(c, allowed_del)
-    okd = all(allowed_del(c) for c in owners) and len(dele) >= 2
+    okd = all(allowed_del(c) for c in owners) and len(owners) >= 2
     ctx.add('W12', 'T-WHO', ctx.fn1(r'^memory::ToFree::delete$'), okd, 'retired objects are deleted only by try_freeing (all tokens announced) or by a destructor (exclusive access)' if okd else
             'ToFree::delete is reached from %s' % sorted(short_fn(c) for c in owners if not allowed_del(c)), sub='delete')
     # (3) direct deallocation of published classes
